@@ -39,7 +39,7 @@ class Frame:
 
     def pyvc_binop(self, op, other, st, ex, node, reflected):
         import ast as _ast
-        if isinstance(op, _ast.Mult) and other in (-1, -1.0, 1, 1.0):
+        if isinstance(op, _ast.Mult) and isinstance(other, (int, float)) and other in (-1, -1.0, 1, 1.0):
             return Frame(self.fid, self.what, self.sign * int(other))
         raise Unsupported(f"arithmetic on a reader frame: {type(op).__name__} {other!r}")
 
@@ -79,6 +79,15 @@ class SysObj:
             self.vel_rev = v
         else:
             self.fields[attr] = v
+
+    def pyvc_havoc(self, n, st, ex):
+        # at an arbitrary iteration the object still carries whatever an EARLIER iteration stored: some other frame's arrays
+        for attr in ("pos", "vel", "box"):
+            sg = fresh(f"stale_sign_{attr}", INT)
+            st.assume(z3.Or(sg == 1, sg == -1))
+            self.fields[attr] = Frame(fresh(f"stale_{attr}", INT), attr, sg)
+        self.fields.pop("config", None)
+        return self
 
     def pyvc_method(self, name, args, kwargs, st, ex, node):
         if name == "set_pos":
